@@ -21,9 +21,29 @@ var explanationAdditions = map[string]string{
 	"C17": "Round-3 additions: every element Scan returns was compared with the end key (SKIP.SCAN); Get and Delete act only under CompareKeys(elem.Key, key) == 0 (SKIP.MATCH).",
 }
 
+// Additions for the "must" rules and the restated wiring added after the mutation sweep (DESIGN.md §9).
+var sweepAdditions = map[string]string{
+	"C01": "Additions after the mutation sweep: a hit is answered (READ.MUSTHIT); a frozen memtable is dropped only after it was flushed (FLUSH.MUST); failure handlers run on the failure branch (ERR.POLARITY); list walks advance the way they started and run while the element is non-nil (LIST.WALK); compaction uses every table set with the level it came from, one target level = source + 1, created when missing (CMP.LEVELS); the compaction range and the overlap test are the stated predicates (CMP.RANGE); version discarding keeps what it must (GC.KEEP); the table image is laid out as its handles say and no block is lost (BUILD.LAYOUT, BUILD.ALLBLOCKS).",
+	"C02": "Additions after the mutation sweep: recovery reads footer, index and data from where the previous section says they are, into the buffers it decodes (RECOVER.SECTIONS); it loads every regular table file and returns early only when there is none (RECOVER.MUST); wal recovery selects every older regular log, and sets and re-logs every entry (RECOVER.REPLAY); wal versions are parsed and ordered as Create wrote them (WAL.VERSION); ERR.POLARITY, ERR.SWALLOW, FLUSH.MUST, BUILD.LAYOUT.",
+	"C03": "Additions after the mutation sweep: RECOVER.SECTIONS, RECOVER.MUST, RECOVER.REPLAY, WAL.VERSION, ERR.POLARITY, ERR.SWALLOW, FLUSH.MUST as under C02; the four legitimate ends of a log are all present and a torn record ends the replay (RECOVER.ENDLOG).",
+	"C04": "Additions after the mutation sweep: RECOVER.REPLAY, WAL.VERSION.",
+	"C05": "Additions after the mutation sweep: READ.MUSTHIT, GC.KEEP.",
+	"C06": "Additions after the mutation sweep: the clean-up of the committed-transaction list visits the whole list and drops a record only under ts <= read watermark (CONF.KEEPALL).",
+	"C07": "Additions after the mutation sweep: CONF.KEEPALL.",
+	"C09": "Additions after the mutation sweep: CMP.LEVELS, CMP.RANGE, GC.KEEP, LIST.WALK, BUILD.LAYOUT, BUILD.ALLBLOCKS as under C01; the next table number is the running maximum (IDX.FRESH).",
+	"C10": "Additions after round 4 and the mutation sweep: early not-found answers of a search only for an empty container or when its last element is below the key; the loops of the lookup are left only through their own condition or a found-return; READ.MUSTHIT; RECOVER.SECTIONS; BUILD.LAYOUT, BUILD.ALLBLOCKS.",
+	"C11": "Additions after the mutation sweep: BUILD.LAYOUT, BUILD.ALLBLOCKS; the out-of-range branch of a length check records or returns an error (CODEC.NARROW).",
+	"C14": "Additions after the mutation sweep: RECOVER.REPLAY, WAL.VERSION, ERR.POLARITY, ERR.SWALLOW, FLUSH.MUST; the torn-tail classifier answers true as soon as one end-of-input test succeeds (DUR.TORN); RECOVER.ENDLOG as under C03.",
+	"C15": "Additions after the mutation sweep: every loop can make progress - its exit condition reads something the loop changes, or the loop calls out (LOOP.PROGRESS); list walks advance (LIST.WALK); each watermark of the oracle is stopped exactly once (LIVE.STOPONCE).",
+	"C17": "Additions after the mutation sweep: Delete redirects a predecessor only where it points at the found element, to that element's successor (SKIP.UNLINK); LOOP.PROGRESS.",
+}
+
 func init() {
 	for _, pr := range properties {
 		if add, ok := explanationAdditions[pr.ID]; ok {
+			pr.Explanation += " " + add
+		}
+		if add, ok := sweepAdditions[pr.ID]; ok {
 			pr.Explanation += " " + add
 		}
 	}
